@@ -457,7 +457,11 @@ class SumProductUnify(FunctionContract):
 
 
 def units():
-    return [FunctionUnit(MapCall()), FunctionUnit(ModuloIdentity()),
+    from pyvc.contracts import ClassShapeUnit
+    return [ClassShapeUnit("dagrt/expression.py", "_ExtendedUnifier",
+                           {"map_call", "map_call_with_kwargs", "map_modulo_identity", "map_sum", "map_product"},
+                           ["UnidirectionalUnifier"], "A-UNIF (pymbolic's unifier is used as it is for every other node class)"),
+            FunctionUnit(MapCall()), FunctionUnit(ModuloIdentity()),
             FunctionUnit(SumProductUnify("map_sum", 0)), FunctionUnit(SumProductUnify("map_product", 1))] \
         + __import__("contracts.c17match", fromlist=["units"]).units()
 
